@@ -1,5 +1,7 @@
 #!/bin/bash
+# both tiers: the same relations against ark-ff built with the `asm` feature (tools/asm_stage.sh)
 # thorough tier: coverage-guided stage (libFuzzer target with in-target oracle), see tools/fuzz_stage.sh
-[ "${1:-quick}" = "thorough" ] || exit 0
 ROOT="${VERIF_ROOT:-/verif}"
+"$ROOT/tools/asm_stage.sh" C01 "${1:-quick}" || exit $?
+[ "${1:-quick}" = "thorough" ] || exit 0
 exec "$ROOT/tools/fuzz_stage.sh" C01 field_ops 250000 260 8
